@@ -88,7 +88,7 @@ Record spec_wf : Prop := {
       afind (p_strands p) n = Some (items, l, d) /\ (forall it, In it items -> item_ok (List.length (p_sups p)) it) /\ l = refs_total items;
   wf_sup_idx : forall j n items l, nth_error (p_sups p) j = Some (n, (items, l)) -> sup_index p n = Some j;
   wf_struct : so = true -> forall sn v, In (sn, v) (p_structs p) -> afind (p_structs p) sn = Some v;
-  wf_placed : so = true -> forall n v, In (n, v) (p_strands p) -> first_inst_in p (p_structs p) n <> None;
+  wf_placed : so = true -> forall n items l d, In (n, (items, l, d)) (p_strands p) -> l <> 0 -> first_inst_in p (p_structs p) n <> None;
   wf_base_idx : forall k n t, nth_error (p_bases p) k = Some (n, t) -> base_index p n = Some k;
   wf_disjoint : forall n, base_index p n <> None -> sup_index p n = None;
   wf_struct_len : so = true -> forall sn names s len, In (sn, (names, s, len)) (p_structs p) -> len = DGraph.total p names }.
@@ -336,7 +336,7 @@ Proof. intros SO Hs E Hn Hx. destruct (wf_strand WF n items l d Hn) as [AF [OK E
 Lemma kap_spos n items l d o dd : In (n, (items, l, d)) (p_strands p) -> o < l ->
   kap (spos p so n o) = nth o (flat_map (ref_c ctbl) items) dd.
 Proof. intros Hn Ho. destruct (wf_strand WF n items l d Hn) as [AF [OK EL]]. unfold spos. destruct so eqn:SO.
-  - destruct (first_inst_in p (p_structs p) n) as [[sn off]|] eqn:FI; [|exfalso; apply (wf_placed WF SO n _ Hn FI)].
+  - destruct (first_inst_in p (p_structs p) n) as [[sn off]|] eqn:FI; [|exfalso; apply (wf_placed WF SO n items l d Hn ltac:(lia) FI)].
     destruct (first_inst_spec _ _ _ _ FI) as [names [s [ls [pre [post [A [B ->]]]]]]].
     apply (kap_inst sn names s ls pre n post items l d o dd SO A B Hn Ho).
   - unfold kap. rewrite SO, AF. apply nth_indep. rewrite (flat_ref_length _ items OK). lia. Qed.
